@@ -1195,11 +1195,25 @@ func litestream.(*DB).snapshotPosition(db, ctx) (p, err)
   at litestream.(*DB).Pos#1 reset pos_verifyErr = nil
   ensures [C02.snap-end] err == nil ==> p.walEndOffset >= 32 && p.pageSize != 0 && p.db == db
 
+// Hydration completes at the current position (F13): the hydrator is marked complete inside a critical section of
+// f.mu in which the position was read and found not to be beyond the hydrated TXID - the poller advances the
+// position and forwards pages to a complete hydrator under the same mutex, so nothing polled can be lost.
+ghost hy_locks Int
+ghost hy_unlocks Int
+func litestream.(*VFSFile).runHydration(f, infos)
+  requires f != nil && hy_locks == 0 && hy_unlocks == 0
+  modifies $heap, $alloc, it_idx, hy_locks, hy_unlocks
+  at sync.(*Mutex).Lock#all set hy_locks = hy_locks + 1
+  at sync.(*Mutex).Unlock#all set hy_unlocks = hy_unlocks + 1
+  at litestream.(*Hydrator).SetComplete#1 assert [C18.complete-at-current] hy_locks == hy_unlocks + 1 && currentTXID <= hydrationTXID && currentTXID == f.pos.TXID
+  at litestream.(*Hydrator).CatchUp#1 assert [C18.catchup-forward] hy_locks == hy_unlocks && $arg1 == hydrationTXID && $arg2 == currentTXID && hydrationTXID < currentTXID
+  loop 0 invariant f == old(f) && hy_locks == hy_unlocks
+
 // Catch-up of a reopened persistent hydration file (F12): the level-0 files after the saved TXID are applied in
 // listing order, each continuing where the previous one ended, and success means the target TXID was reached
 // (otherwise hydration stays incomplete and pages keep being served through the page index).
 func litestream.(*Hydrator).CatchUp(h, ctx, fromTXID, toTXID) (err)
-  requires h != nil && h.client != nil
+  assumes h != nil && h.client != nil     // A-hydrator-wired: NewHydrator stores the VFS's replica client; runHydration runs only with a hydrator
   assumes 0 <= fromTXID && fromTXID <= toTXID && toTXID < 9223372036854775807     // A-txid-range; the caller only catches up forwards
   modifies $heap, $alloc, it_idx
   at litestream.ReplicaClient.LTXFiles#1 assert [C18.catchup-from] $recv == h.client && $arg1 == 0 && $arg2 == fromTXID + 1
